@@ -73,6 +73,9 @@ type invocation struct {
 }
 
 func (iv *invocation) String() string {
+	if iv.API == "Run" && !iv.IsLib {
+		return "Run (nothing left to execute) [normal]"
+	}
 	if iv.API == "Call" {
 		return fmt.Sprintf("Call %s%v [%s]", iv.Fn, iv.Args, kindNames[iv.Kind])
 	}
@@ -83,7 +86,7 @@ func (iv *invocation) String() string {
 	if len(s) > 90 {
 		s = s[:90] + "…"
 	}
-	return fmt.Sprintf("RunCode `%s` [%s]", s, kindNames[iv.Kind])
+	return fmt.Sprintf("%s `%s` [%s]", iv.API, s, kindNames[iv.Kind])
 }
 
 func genStackOverflowSrc() string {
@@ -104,8 +107,24 @@ func genHistory(g *sim.Stream, f *sim.Stream) []*invocation {
 	var hist []*invocation
 	libLive := false
 	libSeen := false
+	// family "main": the VM is created with the library as its main program
+	// (vm.New); invocation 0 is Run, later ones are Calls of its functions and
+	// further Runs (which have nothing left to execute)
+	mainFamily := g.Chance(1, 3)
 	for k := 0; k < n; k++ {
 		iv := &invocation{Stale: map[int]int{}}
+		if mainFamily && k == 0 {
+			iv.API, iv.Kind, iv.IsLib = "Run", kNormal, true
+			iv.Src = c07Lib + fmt.Sprintf("\n%d\n", 3000+g.Intn(1000))
+			hist = append(hist, iv)
+			libLive, libSeen = true, true
+			continue
+		}
+		if mainFamily && g.Chance(1, 6) {
+			iv.API, iv.Kind = "Run", kNormal
+			hist = append(hist, iv)
+			continue
+		}
 		kind := invKind(0)
 		switch g.Intn(10) {
 		case 0, 1, 2, 3:
@@ -126,8 +145,8 @@ func genHistory(g *sim.Stream, f *sim.Stream) []*invocation {
 			kind = kDeadline
 		}
 		iv.Kind = kind
-		useCall := libLive && g.Chance(3, 5)
-		if libSeen && !libLive && g.Chance(1, 4) {
+		useCall := libLive && (mainFamily || g.Chance(3, 5))
+		if !mainFamily && libSeen && !libLive && g.Chance(1, 4) {
 			// questionable but possible usage: the host kept a function of code
 			// that a later RunCode replaced. Whatever it returns (today: a
 			// recovered nil-pointer panic), the invocations after it must be
@@ -296,6 +315,16 @@ func runInv(ctx context.Context, m *vm.VirtualMachine, cfg *risor.Config, failIm
 			res = invResult{Err: fmt.Sprintf("PANIC-ESCAPED: %v", r)}
 		}
 	}()
+	if iv.API == "Run" {
+		if err := m.Run(ctx); err != nil {
+			return invResult{Err: err.Error(), Raw: err}
+		}
+		tos, ok := m.TOS()
+		if !ok {
+			return invResult{Val: "<no TOS>"}
+		}
+		return invResult{Val: inspectOrNil(tos)}
+	}
 	if iv.API == "RunCode" {
 		if err := m.RunCode(ctx, code, cfg.VMOpts()...); err != nil {
 			return invResult{Err: err.Error(), Raw: err}
@@ -374,9 +403,20 @@ func runC07(rc *fw.RunCtx) {
 	// compile payloads once (shared read-only between the VM under test and the models)
 	codes := make([]*compiler.Code, len(hist))
 	for i, iv := range hist {
-		if iv.API == "RunCode" {
+		if iv.API == "RunCode" || (iv.API == "Run" && iv.IsLib) {
 			codes[i] = compileSrc(iv.Src, cfg)
 		}
+	}
+	mainFamily := hist[0].API == "Run"
+	newMachine := func(c *risor.Config) *vm.VirtualMachine {
+		if mainFamily {
+			return vm.New(codes[0], c.VMOpts()...)
+		}
+		m, err := vm.NewEmpty()
+		if err != nil {
+			panic(err)
+		}
+		return m
 	}
 
 	// ---- reference: fresh VM per invocation, fed only state-carrying predecessors
@@ -390,12 +430,9 @@ func runC07(rc *fw.RunCtx) {
 			} else if iv.Kind == kStaleCall {
 				expected[k] = invResult{Err: "<not compared>"}
 			} else {
-				m, err := vm.NewEmpty()
-				if err != nil {
-					panic(err)
-				}
+				m := newMachine(cfgModel)
 				bg := context.Background()
-				if iv.API == "Call" {
+				if iv.API == "Call" || (iv.API == "Run" && !iv.IsLib) {
 					r := runInv(bg, m, cfgModel, &failImport, hist[libIdx], codes[libIdx])
 					if r.Err != "" {
 						panic("harness: model library failed: " + r.Err)
@@ -406,7 +443,7 @@ func runC07(rc *fw.RunCtx) {
 				}
 				expected[k] = runInv(bg, m, cfgModel, &failImport, iv, codes[k])
 			}
-			if iv.API == "RunCode" {
+			if iv.API == "RunCode" || (iv.API == "Run" && iv.IsLib) {
 				if iv.IsLib && iv.Kind == kNormal {
 					libIdx = k
 				} else {
@@ -420,10 +457,7 @@ func runC07(rc *fw.RunCtx) {
 	}
 
 	// ---- system under test: one VM, under the scheduler
-	machine, err := vm.NewEmpty()
-	if err != nil {
-		panic(err)
-	}
+	machine := newMachine(cfg)
 	ctxs := make([]context.Context, len(hist))
 	cancels := make([]context.CancelFunc, len(hist))
 	got := make([]invResult, len(hist))
@@ -493,7 +527,7 @@ func runC07(rc *fw.RunCtx) {
 			} else {
 				got[k] = runInv(ctxs[k], machine, cfg, &failImport, iv, codes[k])
 			}
-			if iv.API == "RunCode" && iv.IsLib && got[k].Err == "" {
+			if (iv.API == "RunCode" || iv.API == "Run") && iv.IsLib && got[k].Err == "" {
 				if fnObj, err := machine.Get("add"); err == nil {
 					staleFn, _ = fnObj.(*object.Function)
 				}
